@@ -68,7 +68,6 @@ def malformed_subclass(s: str) -> str:
     """A stable name for the way *s* fails the canonical grammar (s must not be canonical)."""
     if s == "":
         return "empty"
-    tags: list[str] = []
     t = s
     if t.endswith("\n") and not t[:-1].endswith("\n"):
         t2 = t[:-1]
@@ -89,7 +88,6 @@ def malformed_subclass(s: str) -> str:
         if sep in core:
             head = core.split(sep, 1)[0]
             if parse_canonical(head) is not None:
-                tags.append(name)
                 return name
     if t[:1] in "+-" and parse_canonical(t[1:]) is not None:
         return "sign"
